@@ -186,6 +186,22 @@ Proof.
   exists out. split; [exact E|]. eapply eq_trans; [exact V|]. apply fin_R_veff.
 Qed.
 
+(* the same for every flat (C-order) index: coefficient (i / inner) mod F *)
+Lemma apply_R_value_flat nv F calls (t : tensor R) axis ip i d :
+  Forall (good_call RNum F) calls -> calls <> [] -> good_arg RNum F t axis ->
+  takes_tensor_path (shape t) = true -> (i < length (data t))%nat ->
+  let vs := flat_map (vectors_of_call RNum) calls in
+  let f := ((i / v_inner (view_of t axis)) mod F)%nat in
+  exists out, apply_R nv (acc_all RNum None calls) t axis ip = Ok out /\
+    nth i (a_vals out) d
+    = standardised nv (nth i (data t) 0) (col_mean RNum vs f) (col_var RNum vs f).
+Proof.
+  intros H Hne G P Hi vs f.
+  destruct (apply_after_history_flat RNum RNum_lawful fin_R_vec fin_R_ten 0 nv
+              F calls t axis ip i d H Hne G P Hi) as (out & E & V).
+  exists out. split; [exact E|]. eapply eq_trans; [exact V|]. apply fin_R_veff.
+Qed.
+
 (** * Examples: the hypotheses of the history theorems are satisfiable (executable instance) *)
 Definition ex_t1 : tensor (T QcNum) := mk_tensor [2; 2]%Z 1 [1; -2; 3; 5]%Z true.       (* two vectors, axis -1 *)
 Definition ex_t2 : tensor (T QcNum) := mk_tensor [2]%Z 1 [7; 0]%Z false.                (* one vector *)
